@@ -1,7 +1,6 @@
 package pongo2
 
 import (
-	"errors"
 	"fmt"
 	"reflect"
 	"strconv"
@@ -277,17 +276,13 @@ func (vr *variableResolver) resolve(ctx *ExecutionContext) (*Value, error) {
 	if len(vr.parts) > 0 && vr.parts[0].typ == varTypeArray {
 		items := make([]*Value, 0)
 		for _, part := range vr.parts {
-			switch v := part.subscript.(type) {
-			case *nodeFilteredVariable:
-				item, err := v.resolver.Evaluate(ctx)
-				if err != nil {
-					return nil, err
-				}
-
-				items = append(items, item)
-			default:
-				return nil, errors.New("unknown variable type is given")
+			// every item is an expression of its own (with its filters, if any)
+			item, err := part.subscript.Evaluate(ctx)
+			if err != nil {
+				return nil, err
 			}
+
+			items = append(items, item)
 		}
 
 		return &Value{
